@@ -11,7 +11,7 @@ ID = "C19"
 TITLE = "R-style distribution helpers are the distributions they name"
 RULE = ("Hypothesis draws (family, function kind d/p/q/r/roundtrip/nbinom-forms, parameters in the valid "
         "range rounded to 6 significant digits - in a fifth of the cases whole numbers handed over as Python or NumPy ints -, an argument placed through a uniform quantile level so "
-        "that it is spread over the whole support, log flag, integer seed, n, parameters handed over in the historical positional/keyword mix or all by keyword; in a third of the d/p/q cases the same argument is asked again for 1-2 other parameter sets and then for the first one - no answer may depend on an earlier call). Oracle: closed-form "
+        "that it is spread over the whole support, log flag, integer seed, n, parameters handed over in the historical positional/keyword mix or all by keyword; in a third of the d/p/q cases the same argument is asked again for 1-2 other parameter sets and then for the first one - no answer may depend on an earlier call; in a quarter of the d/p cases the function is also called on an unsorted array of 3-6 arguments, which must give entry by entry what the scalar calls give). Oracle: closed-form "
         "density/mass/cdf written with mpmath at 30 digits in R's parameterisation (rate, not scale); "
         "q checked through the reference cdf; r checked for same-seed equality, support and a KS test "
         "at alpha=1e-12. Non-trivial = at least one parameter differs from the function's default and "
@@ -112,6 +112,9 @@ def strategy(tier):
              "n": draw(st.sampled_from([1, 1, 2, 3, 5, 8, 13, 20])),
              "style": draw(st.sampled_from(["mixed", "mixed", "keyword", "positional"])),
              "int_form": draw(st.sampled_from(["python", "python", "numpy"]))}
+        if kind in ("d", "p", "m") and draw(st.integers(0, 3)) == 0:
+            c["vector"] = [_sig(draw(st.floats(1e-3, 1 - 1e-3)), 6) for _ in range(draw(st.integers(2, 5)))]
+            c["vector_reversed"] = draw(st.booleans())
         if kind in ("d", "p", "q") and fam != "nbinom" and draw(st.integers(0, 2)) == 0:
             # the same argument asked again for other parameter values (and back): no answer may depend on an earlier call
             c["again"] = [draw(_params(fam)) for _ in range(draw(st.integers(1, 2)))]
@@ -464,6 +467,36 @@ def _oracle_one(case, rec, count=True):
                     fam, P, pval, fam), case)
         else:
             raise Inconclusive("no seeded generator")
+    if case.get("vector") and kind in ("d", "p", "m") and count:
+        # the same function on an ARRAY of arguments (a time series of counts, in time order - not sorted): entry j must be
+        # what the function returns for the j-th argument alone
+        import pygom.utilR as R
+        xs = []
+        for uj in case["vector"]:
+            xj = float(frozen.ppf(uj))
+            if math.isfinite(xj):
+                xs.append(xj if fam in DISCRETE else _sig(xj, 8))
+        xs.append(x)
+        xs = np.array(xs[::-1] if case.get("vector_reversed") else xs, float)
+        if kind == "m":
+            k_, p_ = P["size"], P["prob"]
+            f_ = lambda v: R.dnbinom(v, k_, mu=k_ * (1 - p_) / p_, log=log)                      # noqa: E731
+            name_ = "dnbinom(mu-form)"
+        elif fam == "nbinom":
+            f_ = lambda v: R.dnbinom(v, P["size"], prob=P["prob"], log=log)                     # noqa: E731
+            name_ = "dnbinom"
+        else:
+            f_ = lambda v: _call(kind + fam, fam, v, P, use_def, log=log)                       # noqa: E731
+            name_ = kind + fam
+        keyv = "C19/%s/vector" % name_
+        rec.label("vectorised-call")
+        try:
+            vec = np.asarray(f_(xs), float)
+            one = np.array([float(f_(float(v))) for v in xs])
+        except Exception as e:
+            raise PropertyViolation(keyv + "/raises", "%s on the array %r raised %r" % (name_, xs, e), case)
+        if vec.shape != xs.shape or not np.allclose(vec, one, rtol=1e-12, atol=0, equal_nan=True):
+            raise PropertyViolation(keyv, "%s(%r, %r) = %r but element by element it gives %r" % (name_, xs, P, vec, one), case)
     if nontrivial and count:
         rec.mark_nontrivial(case, dict(case, x=x))
     return x
